@@ -366,7 +366,7 @@ func newEnvPickler() pickle.PicklerFunc {
 
 // envPickler provides support for pickling functions and modules.
 //
-// - Builtins are pickled as (NEWOBJ "dawn" "Builtin" ())
+// - Builtins are pickled as (NEWOBJ "dawn" "Builtin" (name[, receiver]))
 // - Function code is pickled as (NEWOBJ "dawn" "FunctionCode" (module, globals, bytecode))
 // - Functions are pickled as (NEWOBJ "dawn" "Function" (defaults, freevars, code)).
 func envPickler(x starlark.Value) (module, name string, args starlark.Tuple, err error) {
@@ -374,7 +374,12 @@ func envPickler(x starlark.Value) (module, name string, args starlark.Tuple, err
 	case *function:
 		return "dawn", "Target", starlark.Tuple{starlark.String(x.label.String())}, nil
 	case *starlark.Builtin:
-		return "dawn", "Builtin", starlark.Tuple{}, nil
+		// Pickle the builtin's name (and the receiver of a bound method), so that replacing one
+		// referenced builtin by another changes the environment.
+		if recv := x.Receiver(); recv != nil {
+			return "dawn", "Builtin", starlark.Tuple{starlark.String(x.Name()), recv}, nil
+		}
+		return "dawn", "Builtin", starlark.Tuple{starlark.String(x.Name())}, nil
 	case *starlark.FunctionCode:
 		module, globals := x.ModuleEnv()
 		return "dawn", "FunctionCode", starlark.Tuple{module, globals, starlark.Bytes(x.Bytecode())}, nil
@@ -388,7 +393,7 @@ func envPickler(x starlark.Value) (module, name string, args starlark.Tuple, err
 
 // envUnpickler provides support for unpickling functions and modules.
 //
-//   - Builtins are unpickled from (NEWOBJ "dawn" "Builtin" ()) into ()
+//   - Builtins are unpickled from (NEWOBJ "dawn" "Builtin" (name[, receiver])) into that tuple
 //   - Function code is unpickled from (NEWOBJ "dawn" "FunctionCode" (module, globals, bytecode))
 //     into a dictionary.
 //   - Functions are unpickled from (NEWOBJ "dawn" "Function" (defaults, freevars, code))
@@ -410,8 +415,8 @@ func envUnpickler(module, name string, args starlark.Tuple) (starlark.Value, err
 		}
 		return args, nil
 	case "Builtin":
-		if len(args) != 0 {
-			return nil, fmt.Errorf("expected 0 args, got %v", len(args))
+		if len(args) > 2 {
+			return nil, fmt.Errorf("expected at most 2 args, got %v", len(args))
 		}
 		return args, nil
 	case "FunctionCode":
